@@ -169,6 +169,11 @@ def run(ctx, chk):
                 for s_ in bb["stmts"]:
                     if s_[0] == "assign" and not s_[1]["p"] and s_[2][0] == "ref" and s_[2][1]["l"] in undef_refs and not [e for e in s_[2][1]["p"] if e != "deref"]:
                         undef_refs.add(s_[1]["l"])
+        from symterm import SymFlow, subterms, strip
+        from driver_rules import local_closure
+        flow = SymFlow(drv)
+        flow_entry, _, _ = flow.run(0, stop=set(targets))
+        start_helpers = []
         for bi, t in sorted(M.calls_in(drv), key=lambda x: cfg.rpo_index.get(x[0], 10 ** 9)):
             d = t[1].get("def") or ""
             if d.endswith("preprocess::preprocess"):
@@ -176,13 +181,16 @@ def run(ctx, chk):
             elif any(a[0] in ("copy", "move") and a[1]["l"] in undef_refs for a in t[2]) and not any(g == "undefined-labels" for g, _ in gates):
                 # first use of the preprocessor's undefined_labels set (however it is iterated)
                 gates.append(("undefined-labels", bi))
-            elif d.endswith("HashMap::<K, V, S, A>::get"):
-                # the lookup of "start": its key argument is the constant "start"
-                from driver_rules import trace_value
-                for a in t[2][1:]:
-                    ch = trace_value(drv, bi, a)
-                    if any(c[0] == "const" and "start" in (c[1].get("txt") or "") for c in ch):
-                        gates.append(("start-lookup", bi))
+            elif bi in flow_entry and any(strip(a) == ("str", '"start"') for a in flow.call_args(flow_entry[bi], bi)):
+                # the lookup of "start": the constant "start" is an argument of a map lookup, or of a local helper that
+                # performs the lookup (directly or through its closures)
+                g = ctx.program.fns.get(t[1].get("id")) if t[1].get("local") else None
+                if d.endswith("HashMap::<K, V, S, A>::get"):
+                    gates.append(("start-lookup", bi))
+                elif g is not None and any((tt[1].get("def") or "").endswith("HashMap::<K, V, S, A>::get")
+                                           for f2 in local_closure(ctx.program, g) for _, tt in M.calls_in(f2)):
+                    gates.append(("start-lookup", bi))
+                    start_helpers.append((bi, g))
         kinds = set(g for g, _ in gates)
         for need in ("preprocess", "undefined-labels", "start-lookup"):
             if need not in kinds:
@@ -211,8 +219,44 @@ def run(ctx, chk):
         for bi, t in M.calls_in(drv):
             if (t[1].get("def") or "").endswith("Label::get_type") and all(cfg.dominates(bi, x) for x in targets):
                 okd = True
-        if okd:
-            chk.ok("C14.R3", "gate:start-is-code", "the type of `start` is examined before execution")
+        # stronger, on terms: with the type of the looked-up label assumed DATA, neither loading nor execution is reachable
+        lt = next((a for n, a in ctx.program.adts.items() if n.endswith("::LabelType")), None)
+        lab = next((a for n, a in ctx.program.adts.items() if n.endswith("::Label")), None)
+        if okd and lt is not None and lab is not None:
+            data_i = next((i for i, v in enumerate(lt["variants"]) if v["name"] == "DATA"), None)
+            type_i = next((i for i, f in enumerate(lab["variants"][0]["fields"]) if f[1].endswith("LabelType")), None)
+            tested = []
+
+            def decide(t, b):
+                if t[0] == "disc":
+                    x = strip(t[1])
+                    if (x[0] == "call" and x[1].endswith("Label::get_type")) or (x[0] == "proj" and x[2] == ("f", type_i)):
+                        if any(y[0] == "call" and y[1].endswith("::get") and any(strip(a) == ("str", '"start"') for a in y[2][1:]) for y in subterms(x)):
+                            tested.append(b)
+                            return data_i
+                return None
+            e_data, _, _ = flow.run(0, stop=set(targets), decide=decide)
+            _, arr_data, _ = flow.run(0, stop=set(targets), decide=decide)
+            if tested and any(t in arr_data for t in targets):
+                okd = False
+                chk.violation("C14.R3", "CMDDriver::run", "start-type-unchecked",
+                              "with `start` bound to a DATA label the driver still reaches data loading / execution: the data label is run as code", drv["span"])
+                okd = None
+        helper_verdict = None
+        for bi, g in start_helpers:
+            if all(cfg.dominates(bi, x) for x in targets):
+                from rules_c08 import start_helper_rule
+                lab = next((a for n, a in ctx.program.adts.items() if n.endswith("::Label")), None)
+                map_i = next((i for i, f in enumerate(lab["variants"][0]["fields"]) if f[0] == "map"), None) if lab else None
+                helper_verdict = start_helper_rule(ctx, ("call", g["name"], (), bi), map_i)
+        if okd is None:
+            pass
+        elif okd:
+            chk.ok("C14.R3", "gate:start-is-code", "the type of `start` is examined before execution; a DATA label cannot reach loading/execution")
+        elif helper_verdict is not None and helper_verdict[0] is True:
+            chk.ok("C14.R3", "gate:start-is-code", "the lookup helper yields a position for a code label only (V, per label type)")
+        elif helper_verdict is not None and helper_verdict[0] is None:
+            chk.undecided_("C14.R3", "gate:start-is-code", helper_verdict[1])
         else:
             chk.violation("C14.R3", "CMDDriver::run", "start-type-unchecked", "a data label named start is not rejected before execution", drv["span"])
 
